@@ -74,6 +74,10 @@ def _scalar_boundaries(s):
         for b in (g("value"), g("min"), g("max")):
             if b is not None:
                 out += [int(b) - 1, int(b), int(b) + 1]
+                if int(b) in (0, 1):
+                    out += [bool(b)]
+        # ints beyond the float range (any float conversion raises OverflowError), on both sides
+        out += [2 ** 1024, -2 ** 1024, 10 ** 400, -10 ** 400]
     elif isinstance(s, FloatSchema):
         prec = g("precision")
         for b in (g("value"), g("min"), g("max")):
@@ -181,6 +185,10 @@ def scalar_corpus():
                   "schema.int.min(v).max(v)", "schema.int.min(v)", "schema.int.max(v)", "schema.int.max(v).min(v)",
                   "schema.int(v).max(v).min(v)"):
             add(e, v, v=v)
+    for v in (10 ** 9, 2 ** 53, 10 ** 12 + 7, -2 ** 63, 10 ** 400, True, False):
+        for e in ("schema.int(v)", "schema.int(v).min(v)", "schema.int.min(v)", "schema.int.max(v)", "schema.list([schema.int(v), ...])",
+                  'schema.dict({"n": schema.any(schema.int(v), schema.none)})'):
+            add(e, {"n": v} if "dict" in e else ([v] if "list" in e else v), v=v)
     for v in (2.0, 0.1, -1.5, 1e10):
         for e in ("schema.float(v)", "schema.float(v).min(v)", "schema.float(v).max(v)", "schema.float(v).min(v).max(v)",
                   "schema.float.min(v).max(v)", "schema.float.min(v)", "schema.float.max(v)", "schema.float(v).precision(1)",
@@ -197,6 +205,9 @@ def scalar_corpus():
         for e in ("schema.str(v)", "schema.str(v).len(n)", "schema.str.len(n)", "schema.str.len(n, ...)", "schema.str.len(..., n)",
                   "schema.str.len(n, n)", "schema.str(v).len(n, ...)", "schema.str(v).len(..., n)"):
             add(e, v, v=v, n=len(v))
+    for v in (b"", b"ab"):
+        for e in ("schema.bytes(v)", "schema.list([schema.bytes(v)])"):
+            add(e, [v] if "list" in e else v, v=v)
     for e, w in [('schema.str.alphabet("ab").len(2)', "ab"), ('schema.str.contains("an").len(2, 6)', "banana"),
                  ('schema.str.alphabet("abn").contains("an")', "banana"), ('schema.str.regex(r"^a+$")', "aa"),
                  # unions whose alternatives are of the same kind and differ only below the top level
